@@ -442,6 +442,9 @@ def run(ck):
     from .regs import config_bits_rule
     config_bits_rule(R, 'C03.g', ('REG_AF_READABLE',), 'a block read of an area configured write-only hands out its content from then on (or a readable area reads as zeroes)')
     config_bits_fixture(R, 'C03.g')
+    ck.rule('C03.h', 'a refused block read / hole test / range iteration leaves nothing behind in the table (no memo, cursor or mark on a refusing path): the answer to a request does not depend on the requests made before it')
+    from .regs import refusals_leave_no_trace
+    refusals_leave_no_trace(R, 'C03.h', ('register_block_read', 'register_block_touches_hole', 'register_foreach_in'))
     from .common import reevaluate
     reevaluate(ck, 'C03.f', 'c04', lambda r, k: r == 'C04.e',
                'range iteration starts its search at the first register recorded for the area that contains the start address')
